@@ -2,6 +2,8 @@
    Parsing/printing only.  Request lines (same lines the Rust harness subs `bincode` / `channel` read):
      E C <command description>      encode a Command        E R <response description>
      D C <hex> / D R <hex>          decode bytes as a Command / Response, print the re-encoding
+     K C <command description>      what the encrypted link does with it (Model/WireLink.v): size, crc32 of the
+     K R <response description>     encoding (printing only: zlib's CRC-32 of the model's bytes), delivery class
      (channel requests: see below) *)
 open Wire
 
@@ -120,6 +122,20 @@ let show_enc enc size send rt =
       (match s with Ok n -> string_of_n n | Err _ -> "ERR" | Panic _ -> "PANIC")
       (match p with Ok n -> string_of_n n | Err _ -> "ERR" | Panic _ -> "PANIC")
 
+(* ---- the encrypted link: size / digest of the model's encoding and the class of Model/WireLink.v *)
+let crc_table = Array.init 256 (fun i ->
+  let c = ref i in
+  for _ = 0 to 7 do c := if !c land 1 <> 0 then 0xEDB88320 lxor (!c lsr 1) else !c lsr 1 done; !c)
+let crc32 (l : char list) =
+  let c = ref 0xFFFFFFFF in
+  List.iter (fun ch -> c := crc_table.((!c lxor Char.code ch) land 0xff) lxor (!c lsr 8)) l;
+  (!c lxor 0xFFFFFFFF) land 0xFFFFFFFF
+let string_of_chars (l : char list) = String.concat "" (List.map (String.make 1) l)
+let show_link enc cls =
+  match enc with
+  | Ok b -> Printf.sprintf "size=%d crc=%08x class=%s" (List.length b) (crc32 b) (string_of_chars (link_class_name cls))
+  | _ -> Printf.sprintf "size=ERR crc=- class=%s" (string_of_chars (link_class_name cls))
+
 (* ---- channel: the same single-threaded schedules as harness/subs/channel.rs, as atomic steps of the model *)
 let chan_single () =
   let cap = p_n () in
@@ -183,6 +199,10 @@ let handle line =
           | Some (r, _) -> (match encode_response r with Ok b -> "OK " ^ hex b | _ -> "OK unencodable")
           | None -> "ERR")
       | s -> failwith ("D " ^ s))
+  | "K" -> (match next () with
+      | "C" -> let c = p_command () in show_link (encode_command c) (link_class_command c)
+      | "R" -> let r = p_response () in show_link (encode_response r) (link_class_response r)
+      | s -> failwith ("K " ^ s))
   | "S" -> chan_single ()
   | _ -> "BADREQ"
 
